@@ -152,14 +152,22 @@ CHECKS["C04"] = dict(
     parts=[P("crash", "seq", "TestC04", dict(checks=16, shards=8, timeout=900, shrinktime="30s"), dict(checks=320, shards=16, timeout=3400, shrinktime="60s"))],
 )
 
+_E4_DIRS = ["internal/model/core", "internal/model/sequence", "internal/usecase/core", "internal/usecase/store", "internal/usecase/transaction",
+            "internal/usecase/cleaner", "internal/usecase/dir", "internal/repository/dir", "internal/repository/transaction", "internal/repository/content",
+            "internal/repository/file", "internal/repository/content_file", "internal/utils/async", "internal/utils/wpool", "internal/db/badger", "pkg/inline/db", "internal/di"]
+
 CHECKS["C05"] = dict(
     level="exploration",
     rule=("rapid-generated histories of 2-4 segments of transactional/autocommit operations separated by Close/Open in the same process ('reopen') or by a fresh OS process ('newproc', half of the cases), "
           "with 0-2 unrelated databases opened (and written) in the same process before the database under test and kept open; full read-back by every actor after every step and right after every open. "
           "Oracle: reference model across reopen (committed state identical, open transactions gone, every later write supersedes earlier data immediately and after every later reopen). "
-          "non-trivial = an autocommit write after a reopen that is read after a further reopen, with >= 1 other database in the process."),
+          "non-trivial = an autocommit write after a reopen that is read after a further reopen, with >= 1 other database in the process. "
+          "parts 'seqenum'/'seqrand': the process-wide sequence counter (real source, rewritten to the owned scheduler): 2-4 actors of sequence.Set(M) (what Load does when an instance opens) and sequence.Next() calls (what every write, Begin and collector run of any instance does) - every schedule with <= 2 (quick) / <= 4 (thorough) forced preemptions of 5 catalogue programs, and random programs x random-walk schedules. "
+          "Oracle: a number drawn after Set(M) has returned is above M; numbers are never handed out twice and grow along real time."),
     assumptions=_E1_ASSUME,
-    parts=[P("seq", "seq", "TestC05", dict(checks=480, shards=16, timeout=900), dict(checks=10000, shards=16, timeout=3000))],
+    parts=[P("seq", "seq", "TestC05", dict(checks=480, shards=16, timeout=900), dict(checks=10000, shards=16, timeout=3000)),
+           P("seqenum", "det", "TestC05SeqEnum", dict(checks=1, shards=4, split=False, timeout=600, env={"VERIF_SEQ_BOUND": "2"}), dict(checks=1, shards=16, split=False, timeout=3000, env={"VERIF_SEQ_BOUND": "4"}), rapid=False, rewrite=_E4_DIRS),
+           P("seqrand", "det", "TestC05SeqRand", dict(checks=4000, shards=4, timeout=600), dict(checks=400000, shards=16, timeout=3000), rewrite=_E4_DIRS)],
 )
 
 CHECKS["C10"] = dict(
@@ -202,9 +210,6 @@ CHECKS["C15"] = dict(
     parts=[P("race", "seq", "TestC15", dict(checks=96, shards=16, timeout=900, shrinktime="15s"), dict(checks=8000, shards=16, timeout=3400, shrinktime="30s"), race=True)],
 )
 
-_E4_DIRS = ["internal/model/core", "internal/model/sequence", "internal/usecase/core", "internal/usecase/store", "internal/usecase/transaction",
-            "internal/usecase/cleaner", "internal/usecase/dir", "internal/repository/dir", "internal/repository/transaction", "internal/repository/content",
-            "internal/repository/file", "internal/repository/content_file", "internal/utils/async", "internal/utils/wpool", "internal/db/badger", "pkg/inline/db", "internal/di"]
 _E4_ASSUME = ["fs_db's sync / sync-atomic / go statements / blocking selects / time.After in the listed packages are redirected by the source rewriter (tools/rewrite) to the cooperative scheduler harness/detsync; everything else (Badger, files, the omap registry) runs unmodified and is atomic from the scheduler's point of view",
               "scheduling points: every lock/unlock/atomic/cond/waitgroup/channel-select operation and every verif hook point; one managed goroutine runs at a time; the schedule (forced preemptions or a random-walk tape) is part of the generated case",
               "a fresh database (heavy: Badger + file tree; light: in-memory key-value provider + file tree) per schedule",
